@@ -554,7 +554,7 @@ def run_interleave(case):
     queries = (
         [("call", x) for x in strs]
         + [("prefix_weight", ("a",))]
-        + [(n, None) for n in ("cnf", "trim", "cotrim", "prefix_grammar", "agenda", "has_unary_cycle", "unaryremove", "unarycycleremove", "nullaryremove", "renumber", "derivative_a", "rhs", "materialize2", "earley_a", "binarize")]
+        + [(n, None) for n in ("cnf", "trim", "cotrim", "prefix_grammar", "agenda", "has_unary_cycle", "unaryremove", "unarycycleremove", "nullaryremove", "renumber", "derivative_a", "rhs", "materialize2", "earley_a", "binarize", "add_EOS", "boollm_mask", "to_bytes", "getitem_S", "treesum", "truncate1")]
     )
 
     def apply_query(g, q):
@@ -573,6 +573,13 @@ def run_interleave(case):
             return guarded(lambda: norm(dict(g.materialize(2))))
         if o == "earley_a":
             return guarded(lambda: norm(earley.Earley(g)(("a",))))
+        if o == "boollm_mask":
+            return guarded(lambda: ("val", tuple(sorted(BoolCFGLM(g.map_values(lambda w: Boolean(w != Poly.zero), Boolean)).p_next(()).items(), key=repr))))
+        if o == "treesum":
+            return guarded(lambda: norm(g.treesum()))
+        if o in ("add_EOS", "to_bytes", "getitem_S", "truncate1"):
+            ff = {"add_EOS": lambda: add_EOS(g), "to_bytes": g.to_bytes, "getitem_S": lambda: g["S"], "truncate1": lambda: g.truncate_length(1)}[o]
+            return lang(guarded(ff))
         if o == "unarycycleremove":
             r = guarded(g.unarycycleremove)
             if not isinstance(r, str) and unary_cycle(r):
